@@ -80,6 +80,25 @@ def run(prop, tier, seed, t0):
         trans += tr
         nlines += nl
 
+    # thorough tier of memory-sensitive properties: the same executions once
+    # more under AddressSanitizer; a report aborts the process inside a call,
+    # the trace ends in a Crash line, and the API validator rejects it
+    asan_runs = 0
+    if P.get('asan') and tier == 'thorough' and scripts:
+        bind2 = V.build('asan')
+        work2 = os.path.join(work, 'asan')
+        os.makedirs(work2, exist_ok=True)
+        traces2 = V.run_scripts(bind2, scripts, work2, prog=P.get('prog', 'mdrive'), lifecycle=False,
+                                timeout=P.get('timeout', 120) * 3)
+        for (name, _), t in zip(scripts, traces2):
+            script_of[t] = os.path.join(work2, 'scripts', name + '.txt')
+        v, k, st, tr, nl = V.validate(traces2, API[0], API[1], work2, tag='asan', env=P.get('env'))
+        viols += v
+        states += st
+        trans += tr
+        nlines += nl
+        asan_runs = len(traces2)
+
     tags = set(P['tags']) | {prop, 'CRASH', 'MODEL'}
     mine = [v for v in viols if v[0] in tags]
     others = [v for v in viols if v[0] not in tags]
@@ -149,6 +168,7 @@ def run(prop, tier, seed, t0):
         'events_by_type': per_event,
         'model_checking': mc_info,
         'known_findings_hit': sorted(known),
+        'executions_repeated_under_address_sanitizer': asan_runs,
     }
     V.write_evidence(prop, tier, seed, cov, time.time() - t0, nviol, BASE_ASSUMPTIONS + P.get('assumptions', []))
     for ln in out_lines:
@@ -1436,11 +1456,99 @@ def plan_c13(tier, seed, rng):
                                 c13_script(rng, sizes, kind, rng.choice(rules), heur, swap, perms)))
                 n += 1
     return dict(
-        scripts=scripts, validators=[API, STORE], tags={'C13', 'HELD', 'C02'},
+        scripts=scripts, validators=[API, STORE], tags={'C13', 'HELD', 'C02'}, timeout=25, asan=True,
         rule='per forest kind (MT boolean/integer/real sets, EV+ sets, MT boolean/integer relations) x scheduling heuristic (all eight) x swap method '
              '(relations: variable swap and level swap): several edges sharing nodes plus a warm compute table, then a sequence of target permutations '
              '(all 24 / 6 for small K in thorough); after each reordering every held edge is evaluated at every point and compared with PermuteFn of the '
              'specification, a second forest over the same domain must be unchanged, the node snapshot must satisfy the reduction rule and exact counts, '
              'and further operations must agree with the specification; non-trivial = non-constant function',
+        exhaustive=False,
+    )
+
+
+# ---------------------------------------------------------------------------
+# C14: exchange files
+# ---------------------------------------------------------------------------
+def c14_script(rng, sizes, kind, rule, mode):
+    """mode: 'same' (read back into the writing forest), 'other' (another
+    forest of the same kind), 'new' (forest created from the file)"""
+    sr, rngt, lab = KINDS[kind]
+    rel = sr == 'R'
+    S = Script()
+    d = S.dom(sizes)
+    f = S.forest(d, kind, rule, sto=rng.choice(STO))
+    g = S.forest(d, kind, rule, sto=rng.choice(STO)) if mode == 'other' else None
+    npts = points_of(sizes, rel)
+    pal = COPY_PAL.get(kind)
+    n = rng.choice([1, 3, 5])
+    es = [S.new(f) for _ in range(n)]
+    for i, e in enumerate(es):
+        x = rng.random()
+        if kind == 'idx_s':
+            continue
+        if x < 0.15:
+            T = [gen.default_of(kind)] * npts                      # a terminal root
+        elif x < 0.3 and KINDS[kind][1] != 'B':
+            T = [rng.choice([v for v in pal if v != INF])] * npts   # a constant
+        elif x < 0.4 and KINDS[kind][1] == 'B':
+            T = [1] * npts
+        else:
+            T = rand_table(rng, kind, npts, pal, p_default=rng.choice([0.3, 0.6]))
+        table_coll(S, e, f, kind, T, sizes)
+    # shared sub-graphs: an edge built from the others; a repeated root
+    if n >= 3 and KINDS[kind][1] == 'B':
+        S.add('bin UNION %d %d %d' % (es[2], es[0], es[1]))
+    roots = list(es)
+    if n >= 3:
+        roots.append(es[0])             # repeated root
+    S.add('obs')
+    S.add('write 0 %d %d %s' % (f, len(roots), ' '.join(map(str, roots))))
+    outs = [S.slot() for _ in roots]
+    if mode == 'same':
+        S.add('read 0 %d %d %s' % (f, len(outs), ' '.join(map(str, outs))))
+        S.add('obs')
+        S.add('snap %d' % f)
+    elif mode == 'other':
+        S.add('read 0 %d %d %s' % (g, len(outs), ' '.join(map(str, outs))))
+        S.add('obs')
+        S.add('snap %d' % g)
+    else:
+        fnew = S.nfor
+        S.nfor += 1
+        S.forinfo[fnew] = dict(d=d, kind=kind, rule=rule, rel=rel)
+        S.add('readnew 0 %d %d %d %s' % (d, fnew, len(outs), ' '.join(map(str, outs))))
+        S.add('obs')
+        # (the created forest has the default rule of its kind; with another
+        # writing rule the known format limitation applies and the snapshot
+        # is not taken)
+        if rule == ('I' if rel else 'F'):
+            S.add('snap %d' % fnew)
+    # the receiving forest is still usable
+    for o in outs:
+        S.add('del %d' % o)
+    S.add('clearall')
+    S.add('snap %d' % f)
+    return S.text()
+
+
+@plan('C14')
+def plan_c14(tier, seed, rng):
+    scripts = []
+    n = 0
+    for kind in [k for k in KINDS if k != 'idx_s']:
+        rel = KINDS[kind][0] == 'R'
+        for rule in gen.rules_of(kind):
+            for mode in ['same', 'other', 'new']:
+                for rep in range(3 if tier == 'thorough' else 1):
+                    sizes = hist_shapes(rng, rel)
+                    scripts.append(('w%03d_%s%s_%s' % (n, kind, rule, mode), c14_script(rng, sizes, kind, rule, mode)))
+                    n += 1
+    return dict(
+        scripts=scripts, validators=[API, STORE], tags={'C14', 'HELD', 'C02', 'C06'},
+        rule='per forest kind x reduction rule x {read into the writing forest, into another forest of the same kind with an independent storage policy, '
+             'into a forest created from the file}: lists of 1..6 root edges including terminal roots, constants, shared sub-graphs and a repeated root, '
+             'written with mdd_writer to an in-memory stream and read back with mdd_reader; the functions read must equal the functions written, in order '
+             '(reals on the dyadic grid, where the printed precision is exact); the receiving forest\'s node snapshot must satisfy the reduction rule and '
+             'exact incoming counts (store validator); non-trivial = non-constant function',
         exhaustive=False,
     )
